@@ -97,6 +97,7 @@ def judge_run(ctx, cfg, dataset, ds, scheme, sch, one, libseed, extra):
     sub = {"ds": ds, "scheme": sch, "configs": [cfg], "one": one, "libseed": libseed, **extra}
     st, cons, ilps = algos.run_config(cfg, dataset, scheme, one, libseed)
     ctx.count("runs")
+    ctx.unit()
     ctx.count("runs:" + cfg)
     if st != "ok":
         if st == "exc" and algos.refusal_is_documented(cfg, cons, complete, one):
